@@ -423,6 +423,8 @@ def gen_pricing(quick):
 
 # ------------------------------------------------------------------ driver
 def run(ctx: Ctx):
+    from vf.prove import prove
+    prove(ctx, ["specs.cutting"], "C17")  # deductive part (specs/cutting.py)
     from vf.pool import pmap
     use_repo()
     rng = random.Random(ctx.seed)
